@@ -39,11 +39,31 @@ the inline stage on a provably sufficient fuel) answers `ok` for every flag set 
    (`C02_tocRun_err_only_unescape`'s four `unescape` calls meet no STX), the `div.toc` and the new ids hold no STX, so
    the final `UnescapeTreeprocessor` meets bad tokens neither in the old part of the tree (`NodeNB`) nor in the new one.
 
+5. **`C02_convertXBig_ok_toc`**, **`C02_convertXBig_ok_all`** — toc WITHOUT a hypothesis on the headings: for every flag
+   set with toc on and ABBR OFF (the other nine — attr_list, footnotes, fenced_code, … — on or off), every configuration
+   in which STX is not among `ESCAPED_CHARS`, EVERY source: no tree processor raises.  `TocTreeprocessor` applies
+   `unescape` to the serialised heading, and `UnescapeTreeprocessor` applies it AGAIN to the name it wrote into the
+   `div.toc`; the proof follows the heading through both:
+   * the token invariant is strengthened to "no escape token has the value 2" (`TokH`, `C02_stx_token_invariant_safe`:
+     `unescape` never WRITES an STX), tag and attribute names hold no STX (`C02Names.NamesOk`), `AttrListTreeprocessor`
+     keeps both (`C02_attr_list_keeps_tokens`; it is false for the plain invariant — a class appended behind a `class`
+     value that ends in a cut token — hence `NodeSC`);
+   * the serialisation of a heading is of the class `Z0c` (`C02_serialized_heading_class`): every STX is followed by a
+     letter `k w q z`, a complete safe token, or is DEAD — digits up to the closing quote of an attribute value;
+   * `unescape` maps `Z0` into `Z3` (`C02_unescape_twice`: every STX is followed by a letter or is dead), which cutting
+     at `>`/`<`, stripping, the raw-HTML restore, the footnote postprocessor, the `&` substitute, `strip_tags` and
+     `escape` keep (`C02_toc_name_ops_keep_class`: all of them rewrite at characters that are no letter `k w q z`, no
+     digit and no `"`), and a `Z3` string holds no bad token;
+   so `TocTreeprocessor.run` never answers `err` (`C02_tocRun_never_err`) and its tree holds no bad token.
+   With abbr AND toc the partial statement of 4. remains (`TocHyp`): an abbreviation can cut an escape token in two,
+   `STX<abbr>42</abbr>ETX`, which `strip_tags` glues together again — the class `Z3` does not cover that.
+
 Only property statements live here; proofs in `MdVerif/Lemmas/C02Fn*.lean`.  Core Lean only.
 -/
 import MdVerif.Lemmas.C02FnOk
 import MdVerif.Lemmas.C02FnDup2
 import MdVerif.Lemmas.C02FnTocAll
+import MdVerif.Lemmas.C02FnTocZAll
 
 namespace MdVerif.C02Fn
 open Py Pipeline PipelineX C02BigX
@@ -51,7 +71,7 @@ open Py Pipeline PipelineX C02BigX
 /-! ### 1. the STX-token invariant with the footnote tokens -/
 
 open TokG InlineX in
-/-- **The STX-token invariant through the inline tree processor over ANY pattern table, footnote tokens admitted**:
+/-- **The STX-token invariant through the inline tree processor over ANY pattern table, footnote tokens included**:
     with reference definitions and footnote ids free of STX (`XOK`), `runLoopX` keeps "every STX is followed by `k`,
     `w`, `q`, `z` or a complete escape token below 0x110000" (attribute values: up to a cut at the end), on any
     fuels. -/
@@ -64,7 +84,7 @@ theorem C02_stx_token_invariant_fn {xc : XCfg} (hx : XOK xc) (g2 g : Nat) {root 
 theorem C02_token_invariant_weakens {t : Node} (h : t.Forall TokFull.NodeS) : t.Forall TokG.NodeS :=
   forallS_of_full h
 
-/-- what the class admits and what not: the two footnote tokens, an escape token, placeholders; not a token whose
+/-- what the class accepts and what not: the two footnote tokens, an escape token, placeholders; not a token whose
     number `chr()` refuses, not an STX before another letter -/
 example : TokG.SOk FootnotesTree.fnBacklinkText = true ∧ TokG.SOk FootnotesTree.nbspPlaceholder = true ∧
     TokG.SOk "x\x0242\x03 \x02klzzwxh:0000\x03 \x02wzxhzdk:1\x03".toList = true ∧
@@ -289,5 +309,149 @@ example : tocClean { toc := true } {} "# a \\* b".toList = false ∧ tocClean { 
 /-- the domain: a bare `&` in a heading is inside (`&amp;` in the name), a non-ASCII heading outside (`slugify`) -/
 example : treeOod { toc := true } {} "# a & b".toList = false ∧ treeOod { toc := true } {} "# é".toList = true := by
   decide +kernel
+
+/-! ### 5. toc without a hypothesis on the headings -/
+
+open C02TocZ C02Z
+
+open TokH InlineX in
+/-- **The STX-token invariant with SAFE tokens** (`TokH`: as `TokG`, and no complete escape token has the value 2, so
+    that `unescape` never writes an STX) through the inline tree processor over any pattern table, on any fuels — when
+    reference definitions and footnote ids hold no STX and STX is not among `ESCAPED_CHARS` (`XOK`). -/
+theorem C02_stx_token_invariant_safe {xc : XCfg} (hx : XOK xc) (g2 g : Nat) {root t : Node} {stack : List Inline.Path}
+    {x x' : XSt} (h : runLoopX xc g2 g root stack x = some (t, x')) (hd : root.Forall NodeS)
+    (hs : StashS x.st.stash) : t.Forall NodeS :=
+  runLoopX_S hx g2 g root stack x t x' h hd hs
+
+/-- the configuration of the pipeline qualifies when STX is not escapable; the tree of the block stage has the invariant -/
+theorem C02_block_stage_safe_tokens {x : Exts} {cfg : Cfg} {src : Str} (htab : x.fencedCode = true → 0 < cfg.tab)
+    (hesc : cfg.esc.contains Inline.STX = false) {root : Node} {log : Block.Refs} {stash : List Str}
+    (h : blockStageX x cfg src = .ok (root, log, stash)) :
+    root.Forall TokH.NodeS ∧ root.Forall C02Names.NamesC ∧ TokH.XOK (inlineCfgX x cfg log) := by
+  obtain ⟨h1, h2⟩ := C02FnH.blockStageX_tokH htab h
+  exact ⟨h1, C02Names.blockStageX_names htab h, C02FnH.xokH_inlineCfgX x cfg hesc h2⟩
+
+/-- the default `ESCAPED_CHARS` qualify -/
+example : ({} : Cfg).esc.contains Inline.STX = false := by decide
+
+/-- **`AttrListTreeprocessor` keeps the token invariant** when the `class` values of the tree are complete (`NodeSC`; in
+    the pipeline they are literals): every value the scanner produces ends at the end of the group or in front of a
+    blank, `=`, `}` or the closing quote; the new text of a block-level element ends in front of a blank or a line feed;
+    the new tail of an inline element is a suffix of the old one.  It also keeps tag and attribute names free of STX
+    (`sanitize_name`). -/
+theorem C02_attr_list_keeps_tokens (bl : List Str) {t : Node} (h : t.Forall C02FnHAttr.NodeSC) :
+    (AttrListTree.run bl t).Forall C02FnHAttr.NodeSC :=
+  C02FnHAttr.attrRun_SC bl h
+
+/-- … not for the plain invariant: a class appended behind a `class` value that ends in a cut token -/
+example : (C02FnHAttr.cex.children.map (fun c => c.attrs.map (fun kv => TokH.SOkA kv.2)),
+    (AttrListTree.run [] C02FnHAttr.cex).children.map (fun c => c.attrs.map (fun kv => (kv.2, TokH.SOkA kv.2)))) =
+    ([[true]], [[("\x024 foo".toList, false)]]) := by decide
+
+/-- **The serialisation of a tree whose texts are complete (`Z0c`), whose attribute values are complete up to a cut at
+    the end (`ZA`) and whose names hold no STX is of the class `Z0c`**: every STX is followed by a letter `k w q z`, by a
+    complete safe escape token, or by decimal digits up to a `"` (a cut token in front of the closing quote of its
+    attribute value: dead). -/
+theorem C02_serialized_heading_class (fmt : Ser.Fmt) (n : Node) (h : n.Forall NodeZ) :
+    Z0c (Ser.serialize fmt n) = true :=
+  Z0c_serialize fmt n h
+
+/-- **`unescape` twice**: on a `Z0` string `UnescapeTreeprocessor.unescape` does not raise and returns a `Z3` string —
+    every STX is followed by `k w q z` or by decimal digits up to a `"` or the end of the string —, and a `Z3` string
+    holds no `STX digits ETX` at all, so a second `unescape` (and any later one) does not raise either. -/
+theorem C02_unescape_twice {s : Str} (h : Z0 s = true) :
+    ∃ o, TreeProc.unescapeText 0 s = some o ∧ Z3 o = true ∧ TreeProc.unescapeText 0 o ≠ none := by
+  obtain ⟨o, ho, h3⟩ := unescape_Z0 h
+  refine ⟨o, ho, h3, ?_⟩
+  intro hn
+  exact Z3_NB h3 ((TreeProc.C02_unescape_raises_iff o).1 hn)
+
+/-- **What `TocTreeprocessor` does to a name keeps `Z3`**: slicing, `strip`, the postprocessors (raw-HTML restore with a
+    stash free of STX, footnote postprocessor, `&` substitute), `strip_tags`, `escape`. -/
+theorem C02_toc_name_ops_keep_class {s : Str} (h : Z3 s = true) :
+    (∀ n, Z3 (s.take n) = true ∧ Z3 (s.drop n) = true) ∧ Z3 (strip s) = true ∧ Z3 (TocTree.stripTags s) = true ∧
+    Z3 (Ser.escCdata s) = true ∧
+    ∀ (x : Exts) (cfg : Cfg) (stash : List Str) (o : Str), (∀ e ∈ stash, TreeProc.STX ∉ e) →
+      postX x cfg stash s = some o → Z3 o = true :=
+  ⟨fun n => ⟨Z3_take h n, Z3_drop h n⟩, Z3_strip h, Z3_stripTags h, Z3_escCdata h,
+    fun x cfg _ _ hst ho => Z3_postX x cfg ho hst h⟩
+
+/-- the classes are not trivial: a heading with an escape token, a leaked placeholder and a cut token in an attribute
+    value is `Z0c`; a bad token, a token with the value 2, an STX before a blank are not; after `unescape` the tokens are
+    gone, the dead STX stays -/
+example : Z0c "<h1 id=\"a\x0245\x03b\" title=\"(\x024\">T \x0242\x03 \x02klzzwxh:0003\x03</h1>".toList = true ∧
+    Z0 "\x021114112\x03".toList = false ∧ Z0 "\x022\x03".toList = false ∧ Z0 "\x02 ".toList = false ∧
+    TreeProc.unescapeText 0 "t=\"(\x024\">T \x0242\x03".toList = some "t=\"(\x024\">T *".toList ∧
+    Z3 "t=\"(\x024\">T *".toList = true := by decide
+
+/-- **`TocTreeprocessor.run` never raises** on a tree with the safe-token invariant and clean names (`NodeH`), when the
+    postprocessors keep `Z3`: it answers `oof` (the postprocessors ran out of fuel — excluded by
+    `C02_convertXBig_total…`), `ood`, or `ok t'` with `t'` free of bad tokens — ids, names, labels, the `div.toc`. -/
+theorem C02_tocRun_never_err {env : TocTree.Env} (hpost : ∀ s o, env.post s = some o → Z3 s = true → Z3 o = true)
+    (bl : List Str) (root : Node) (hn : root.Forall NodeH) :
+    TocTree.run env bl root = .oof ∨ TocTree.run env bl root = .ood ∨
+      ∃ t', TocTree.run env bl root = .ok t' ∧ t'.Forall C02BigNB.NodeNB :=
+  run_Z hpost bl root hn
+
+/-- **`Markdown.convert` never raises — every flag set**; with toc: abbr off and STX not escapable, or `tocClean`
+    (`TocHyp`, decidable).  EVERY source (`tab_length ≥ 1` with fenced_code). -/
+theorem C02_convertXBig_never_err_all (x : Exts) (cfg : Cfg) (src : Str)
+    (htab : x.fencedCode = true → 0 < cfg.tab) (hcl : x.toc = true → TocHyp x cfg src) :
+    convertXBig x cfg src ≠ .err :=
+  convertXBig_ne_err_full cfg src htab hcl
+
+/-- **C02 with toc — `convert` returns a string**: toc ON, abbr off, the other nine extensions (attr_list, footnotes,
+    fenced_code, tables, admonition, def_list, sane_lists, nl2br, wikilinks) on or off; every configuration in which
+    STX is not among `ESCAPED_CHARS` (`tab_length ≥ 1` with admonition or fenced_code); every `<`-free source of the
+    model's domain (`treeOod = false`) — headings with backslash escapes, entity references, links whose destinations
+    hold escaped `>` or quotes, attribute lists with escapes in ids and labels, footnote references included. -/
+theorem C02_convertXBig_ok_toc (x : Exts) (htoc : x.toc = true) (hab : x.abbr = false) (cfg : Cfg)
+    (hesc : cfg.esc.contains Inline.STX = false) (src : Str) (hlt : '<' ∉ src)
+    (htab : x.admonition = true ∨ x.fencedCode = true → 0 < cfg.tab) (hd : treeOod x cfg src = false)
+    (hw : x.wikilinks = true → WikiSrc cfg src) : ∃ out, convertXBig x cfg src = .ok out :=
+  convertXBig_ok_full cfg src hlt htab hd hw (fun _ => .inl ⟨hab, hesc⟩)
+
+/-- **C02 for the whole extension model: every subset of the eleven extensions**, every configuration (`tab_length ≥ 1`
+    with admonition or fenced_code), every `<`-free source of the model's domain (`treeOod = false`; without toc:
+    `InDomainFn`, `C02_domain_without_toc`) under the decidable hypotheses `WikiSrc` (with wikilinks: no `[` immediately
+    followed by a blank) and `TocHyp` (with toc: abbr off and STX not among `ESCAPED_CHARS` — or the headings handed to
+    `TocTreeprocessor` hold no STX): `convertXBig x cfg src = ok out` — every loop of every stage ends within its
+    fuel, and nothing raises. -/
+theorem C02_convertXBig_ok_all (x : Exts) (cfg : Cfg) (src : Str) (hlt : '<' ∉ src)
+    (htab : x.admonition = true ∨ x.fencedCode = true → 0 < cfg.tab) (hd : treeOod x cfg src = false)
+    (hw : x.wikilinks = true → WikiSrc cfg src) (hcl : x.toc = true → TocHyp x cfg src) :
+    ∃ out, convertXBig x cfg src = .ok out :=
+  convertXBig_ok_full cfg src hlt htab hd hw hcl
+
+/-- … and the model with its own fuel answers the same string, or `oof` (the stack loop of `runX` on the linear fuel) -/
+theorem C02_convertX_ok_or_stack_fuel_all (x : Exts) (cfg : Cfg) (src : Str) (hlt : '<' ∉ src)
+    (htab : x.admonition = true ∨ x.fencedCode = true → 0 < cfg.tab) (hd : treeOod x cfg src = false)
+    (hw : x.wikilinks = true → WikiSrc cfg src) (hcl : x.toc = true → TocHyp x cfg src) :
+    (∃ out, convertX x cfg src = .ok out ∧ convertXBig x cfg src = .ok out) ∨ convertX x cfg src = .oof := by
+  by_cases h : convertX x cfg src = .oof
+  · exact .inr h
+  · left
+    obtain ⟨out, ho⟩ := C02_convertXBig_ok_all x cfg src hlt htab hd hw hcl
+    refine ⟨out, ?_, ho⟩
+    rw [← convertXBig_of_convertX_ne_oof_all h, ho]
+
+/-- ten extensions on (all but abbr): a heading with escapes (`\*`, `\_` inside emphasis), a link whose destination
+    holds an escaped `>` and whose title an escaped quote, an entity reference, a character reference without `;`, a
+    footnote reference, an attribute list with an escape in the id and in a `data-toc-label`; two equal headings with a
+    bare `&`, a code span and a wiki link; a heading with an escaped `#` inside an admonition -/
+def xNoAbbr : Exts := { xAllOn with abbr := false }
+def srcEsc : Str :=
+  ("[TOC]\n\n# T \\* *e\\_* [l](/u\\>v \"t \\\"q\") &amp; &#38x[^1] {: #i\\-d .c data-toc-label=\"L \\* &lt;\" }\n\n" ++
+   "## a & b `c\\*` [[W p]]\n\n## a & b `c\\*` [[W p]]\n\ntext[^1] \\*\n\n!!! note\n    ### in \\# adm {: #x }\n\n[^1]: note\n").toList
+
+/-- the hypotheses of `C02_convertXBig_ok_toc` hold for it — and `tocClean` does not -/
+example : xNoAbbr.toc = true ∧ xNoAbbr.abbr = false ∧ ({} : Cfg).esc.contains Inline.STX = false ∧ '<' ∉ srcEsc ∧
+    0 < ({} : Cfg).tab ∧ treeOod xNoAbbr {} srcEsc = false ∧ WikiSrc {} srcEsc ∧ tocClean xNoAbbr {} srcEsc = false := by
+  decide +kernel
+
+/-- 1053 characters, the output of the implementation -/
+example : (match convertXBig xNoAbbr {} srcEsc, convertX xNoAbbr {} srcEsc with
+    | .ok a, .ok b => decide (a = b) && decide (a.length = 1053)
+    | _, _ => false) = true := by decide +kernel
 
 end MdVerif.C02Fn
